@@ -260,6 +260,18 @@ def check(ctx):
     check_add(ctx)
     check_delivery(ctx)
     check_copies(ctx)
+    # "every occurrence added ... is delivered exactly once": a queue starts empty and is its own object - setup_queue builds a fresh
+    # (reactions x slots) array of zeros on every call (C10 R10.5-queue-setup), and the module keeps no queue between calls (C08 R8.7)
+    from ..core import SubCtx
+    from . import c10, c08
+    for m_ in ('types', 'types.pxd', 'random', 'lineage', 'lineage.pxd', 'inference'):
+        prog.mod(m_)
+    sub = SubCtx(ctx)
+    c10.check_setup(sub)
+    c08.check_pure_evaluation(sub)
+    for rule, key, ok, where, what, detail in sub.got:
+        if (rule == 'R10.5-queue-setup' and key == 'setup_queue') or (rule == 'R8.7-pure-evaluation' and key == 'module-state'):
+            ctx.ob('R20.5-fresh-queue', '%s/%s' % (rule, key), ok, where, what, detail)
     ctx.floor('R20.1-add', 1)
     ctx.floor('R20.2-delivery', 3)
     ctx.floor('R20.4-copies', 3)
